@@ -10,6 +10,7 @@ TARGETS = ['selfies/grammar_rules.py::get_selfies_from_index',
            'selfies/grammar_rules.py::process_atom_symbol',
            'selfies/grammar_rules.py::_process_atom_selfies_no_cache',
            'selfies/utils/smiles_utils.py::smiles_to_atom']
+ASSUMPTIONS = ["atom-symbol contracts (process_atom_symbol, _process_atom_selfies_no_cache, smiles_to_atom, tokenize_smiles) assume ASCII input of at most 4000 characters: Unicode digits matched by \\\\d and CPython's 4300-digit int() limit are recorded known findings", "regex match groups are modelled as SOME decomposition of the string into the pattern's top-level pieces (sound over-approximation of the greedy choice); functools.partial(Atom, **kw) is modelled as a heap object whose call constructs a fresh Atom"]
 EXPLANATION = ('Mixed. PROVED: get_selfies_from_index yields at most three index symbols below 16^3 and only symbols of the index alphabet (C16 contracts) and every clause listed in coverage.clauses. BOUNDED (not counted as proved): decoder accepts encoder(s) under the same table; equivalent same-order spellings give the identical SELFIES string; encoder(decoder(encoder(s))) == encoder(s); over the corpus, special bracket spellings and ring/branch lengths needing 1-2 index symbols.')
 
 
